@@ -7,7 +7,7 @@ NONTRIVIAL_FLAGS = {"gallery-full", "feature-not-collectable", "continuation", "
 RULE = ("VisualSORT / BatchVisualSORT (and SORT kinds for the box histories) lifetimes of up to several hundred updates with history lengths 1..10, visual_max_observations 1..8 (minimal track length <= it), "
         "quality sequences increasing / decreasing / equal / around the collect threshold (including qualities that differ in the third decimal), features present or absent, minimal-area and own-area collect thresholds; "
         "after every call the executor dumps, per track, the three bounded histories (as tokens of the submitted boxes / features), the collected-feature count and the whole gallery (quality, feature token, box flag per entry), compared exactly with the model; "
-        "wasted tracks are converted and their histories compared; non-trivial = an update on a full gallery (eviction), a feature refused by the collect thresholds, continuations, hand-outs; distinct = distinct request line")
+        "wasted tracks are converted and their histories compared; non-trivial = an update on a full gallery (eviction), a feature refused by the collect thresholds, continuations, hand-outs; distinct = distinct request line; the record's predicted box must echo, bit for bit, the last entry of the stored history of predicted boxes (read back from the store after the call), as the observed box echoes the detection")
 TRUSTED_BASE = ["Lean 4.33 kernel", "axioms: propext, Quot.sound, Classical.choice (at most)",
                 "model SimVerif/Model/Tracker.lean (`galleryUpdate`, `pushBounded`, collected count) tied to src/trackers/visual_sort/metric.rs (optimize / optimize_observations), visual_sort/track_attributes.rs and sort.rs (update_history) by the differential run with full gallery dumps",
                 "the collect decision (quality / area / own-area share against the thresholds) is taken by the driver from the implementation-reported area and share; qualities compared as exact rationals"]
